@@ -32,3 +32,9 @@ let cls (r : 'a res) (f : 'a -> string) : string =
   match r with Ok a -> f a | Err -> "err" | Panic -> "panic"
 
 let moves_str (l : n list) : string = String.concat "," (List.map (fun m -> string_of_int (int_of_n m)) l)
+
+(* text of the specification side (lists of character codes as Z) *)
+let text_of_string (s : string) : z list = List.init (String.length s) (fun i -> z_of_int (Char.code s.[i]))
+let string_of_text (t : z list) : string =
+  let b = Buffer.create 64 in
+  List.iter (fun c -> Buffer.add_char b (Char.chr ((int_of_z c) land 255))) t; Buffer.contents b
